@@ -1,0 +1,15 @@
+//go:build verif
+
+// Contracts for the visited-set helpers (comment-only; build tag verif).
+
+package graph
+
+//@ func InitVisited
+//@   trusted
+//@   pure
+//@   ensures result != nil
+
+//@ func CheckAndAddVisited
+//@   trusted
+//@   pure
+//@   ensures result0 != nil
